@@ -1441,11 +1441,21 @@ func (p *scionPacketProcessor) updateNonConsDirIngressSegID() disposition {
 }
 
 func (p *scionPacketProcessor) currentInfoPointer() uint16 {
+	if p.scionLayer.PathType == epic.PathType {
+		// The SCION path is preceded by the EPIC PktID and HVFs.
+		return uint16(slayers.CmnHdrLen + p.scionLayer.AddrHdrLen() + epic.MetadataLen +
+			scion.MetaLen + path.InfoLen*int(p.path.PathMeta.CurrINF))
+	}
 	return uint16(slayers.CmnHdrLen + p.scionLayer.AddrHdrLen() +
 		scion.MetaLen + path.InfoLen*int(p.path.PathMeta.CurrINF))
 }
 
 func (p *scionPacketProcessor) currentHopPointer() uint16 {
+	if p.scionLayer.PathType == epic.PathType {
+		// The SCION path is preceded by the EPIC PktID and HVFs.
+		return uint16(slayers.CmnHdrLen + p.scionLayer.AddrHdrLen() + epic.MetadataLen +
+			scion.MetaLen + path.InfoLen*p.path.NumINF + path.HopLen*int(p.path.PathMeta.CurrHF))
+	}
 	return uint16(slayers.CmnHdrLen + p.scionLayer.AddrHdrLen() +
 		scion.MetaLen + path.InfoLen*p.path.NumINF + path.HopLen*int(p.path.PathMeta.CurrHF))
 }
